@@ -298,14 +298,14 @@ func (m *machine) ruleEditPlan(t *rapid.T) {
 
 func (m *machine) ruleChangeRolloutID(t *rapid.T) {
 	br := m.planOrSkip(t)
+	// a rollout-id names one release: a new one has never been used before (or is empty)
 	cur := br.Spec.ReleasePlan.RolloutID
-	var opts []string
-	for _, s := range []string{"", "r1", "r2", "r3"} {
-		if s != cur {
-			opts = append(opts, s)
-		}
+	m.idSeq++
+	id := fmt.Sprintf("r%d", m.idSeq+1)
+	if cur != "" && rapid.IntRange(0, 3).Draw(t, "id-none") == 0 {
+		id = ""
 	}
-	m.apply(Action{Op: "changeRolloutID", RolloutID: rapid.SampledFrom(opts).Draw(t, "id")})
+	m.apply(Action{Op: "changeRolloutID", RolloutID: id})
 }
 
 func (m *machine) rulePodChurn(t *rapid.T) {
@@ -356,7 +356,7 @@ func runMachine(t *testing.T, family, chk string) {
 		step := func(f func(*rapid.T)) func(*rapid.T) {
 			return func(t *rapid.T) {
 				if m.dead {
-					t.Skip("dead")
+					return // the code under test crashed earlier in this case: nothing more is executed
 				}
 				f(t)
 				m.check(t)
